@@ -604,3 +604,8 @@ def pwvs_unit(ctx):
     if not has_out:
         ctx.check("returns-(working-plan,None)", bool(isinstance(r, tuple) and r[0] is wk and r[1] is None), props=["C14"])
     return "ok"
+
+
+from .sysprobe import replay_for as _replay_for  # noqa: E402
+
+REPLAYS = [("rewrite.*", _replay_for(['C03', 'C05', 'C09', 'C14', 'C13'], 1500))]
